@@ -10,6 +10,8 @@ This file defines what the generated code refers to:
   that an operand is non-negative);
 * `CStr`, the abstract packed string (`rdsparser_string_t *`), and `CEvent`, one invoked callback;
 * list access with `Int` indices (`getI getL getS listSet`) and the bounded loop `forRange`;
+* C strings as byte lists and the trusted models `libc_strlen libc_isxdigit libc_strtol16` of the three
+  libc functions `src/utils.c` calls;
 * `@[simp]` lemmas used by `RdsProofs/Trans*.lean`.
 
 Core Lean only.
@@ -84,6 +86,84 @@ def listSet {α : Type} (l : List α) (i : Int) (v : α) : List α := l.set i.to
 /-- `for (T i = 0; i < n; i++) s = body s i` -/
 def forRange {σ : Type} (n : Int) (init : σ) (body : σ → Int → σ) : σ :=
   (List.range n.toNat).foldl (fun s i => body s (Int.ofNat i)) init
+
+/-! ## C strings and the three libc functions `src/utils.c` calls — TRUSTED MODELS
+
+A NUL-terminated C string seen through a `const char *` is the `List Int` of its bytes *as
+`unsigned char` values* (each 1..255) from the pointer up to, not including, the terminating
+NUL. The NUL is implicit: the byte at offset `length` is 0 (`getI` yields 0 there), offsets
+beyond it are outside the object. Hence `p + k` (for `k ≤ strlen p`) is `List.drop k`, and
+reading the plain (signed, x86-64) `char` at offset `i` is `i8 (getI s i)`.
+
+`libc_strlen`, `libc_isxdigit` and `libc_strtol16` are plain Lean definitions written from the
+text of ISO C11 (§7.24.6.3, §7.4.1.12, §7.22.1.4) / POSIX for the "C" locale and a 64-bit `long`.
+They are *assumed* to describe the libc the library is linked against; nothing in this project
+proves that. They are deliberately as lenient as the real functions: `libc_strtol16` skips
+white space, takes a sign and a `0x` prefix and clamps — the refinement proof
+(`RdsProofs/TransUtils.lean`) has to show that the caller never reaches those paths. -/
+
+/-- `strlen(s)`: the number of bytes before the NUL. -/
+def libc_strlen (s : List Int) : Int := Int.ofNat s.length
+
+/-- The value of a hexadecimal digit `0-9 A-F a-f` ("C" locale), `none` for any other byte. -/
+def libc_hexval (c : Int) : Option Int :=
+  if 48 ≤ c ∧ c ≤ 57 then some (c - 48)
+  else if 65 ≤ c ∧ c ≤ 70 then some (c - 55)
+  else if 97 ≤ c ∧ c ≤ 102 then some (c - 87)
+  else none
+
+/-- `isxdigit(c)` for `c` an `unsigned char` value or `EOF`: non-zero iff `c` is one of
+`0-9 A-F a-f`. C specifies only zero / non-zero; the translator accepts the result in
+truth-value contexts only, so the particular non-zero value chosen here (1) is unobservable. -/
+def libc_isxdigit (c : Int) : Int := if (libc_hexval c).isSome then 1 else 0
+
+/-- `isspace(c)` in the "C" locale: space, `\t \n \v \f \r`. -/
+def libc_isspace (c : Int) : Bool := c == 32 || (decide (9 ≤ c) && decide (c ≤ 13))
+
+/-- The longest initial run of hexadecimal digits of `s`, accumulated onto `acc`:
+(value, number of digits consumed so far `n` + those consumed here). -/
+def libc_hexrun : List Int → Int → Nat → Int × Nat
+  | [], acc, n => (acc, n)
+  | c :: cs, acc, n =>
+    match libc_hexval c with
+    | some v => libc_hexrun cs (acc * 16 + v) (n + 1)
+    | none => (acc, n)
+
+/-- The length of the optional `0x` / `0X` prefix of `strtol(…, 16)`: 2 if the string starts with
+`0x`/`0X` *and a hexadecimal digit follows*, else 0 (then the `0` alone is the number). -/
+def libc_hexprefix : List Int → Nat
+  | 48 :: x :: d :: _ => if (x == 120 || x == 88) && (libc_hexval d).isSome then 2 else 0
+  | _ => 0
+
+/-- `LONG_MAX` / `LONG_MIN` of a 64-bit `long` -/
+def libc_LONG_MAX : Int := 9223372036854775807
+def libc_LONG_MIN : Int := -9223372036854775808
+
+/-- `strtol(s, &end, 16)`: the returned `long` and the offset of `end` from `s`.
+The subject sequence is: any amount of white space (`isspace`), an optional `+` or `-`, an
+optional `0x`/`0X` (taken only if a hexadecimal digit follows; otherwise the `0` alone is the
+number), then the longest run of hexadecimal digits. If there is no digit, no conversion is
+performed: the value is 0 and `end = s`. Otherwise the value is the (negated, if `-`) number,
+clamped to `LONG_MAX` / `LONG_MIN` when it is out of range (then `errno = ERANGE`, not modelled),
+and `end` points just past the last digit. -/
+def libc_strtol16 (s : List Int) : Int × Nat :=
+  let ws := (s.takeWhile libc_isspace).length
+  let s1 := s.drop ws
+  let neg := s1.head? == some 45                                   -- '-'
+  let sg := if s1.head? == some 45 || s1.head? == some 43 then 1 else 0   -- '-' or '+'
+  let s2 := s1.drop sg
+  let px := libc_hexprefix s2
+  let r := libc_hexrun (s2.drop px) 0 0
+  if r.2 = 0 then (0, 0)
+  else
+    let v := if neg then -r.1 else r.1
+    (if v > libc_LONG_MAX then libc_LONG_MAX else if v < libc_LONG_MIN then libc_LONG_MIN else v,
+     ws + sg + px + r.2)
+
+/-- The C string held by a `char` array (elements are `char` values, −128..127): the bytes, as
+`unsigned char`, before the first NUL. (Undefined in C if the array contains no NUL: the
+translator records that side condition.) -/
+def cstrOfChars (a : List Int) : List Int := (a.takeWhile (fun c => c != 0)).map u8
 
 /-! ## lemmas -/
 
